@@ -90,6 +90,72 @@ class Outcome:
         return 'Outcome(%s, %r, %s)' % (self.kind, self.value, self.conds)
 
 
+class Inst:
+    """an instance of a private helper class of the package (class _Name): attributes in a dict, methods run on it"""
+    _n = [0]
+
+    def __init__(self, model, cls):
+        self.model, self.pe_cls, self.attrs = model, cls, {}
+        Inst._n[0] += 1
+        self.pe_id = 500000 + Inst._n[0]
+        self.text = '<%s#%d>' % (cls.qualname.split('.')[-1], Inst._n[0])
+
+    def pe_getattr(self, pe, attr):
+        if attr in self.attrs:
+            return self.attrs[attr]
+        m = self.model.find_method(self.pe_cls, attr)
+        if m is not None:
+            return Bound(m, self, '%s.%s' % (self.text, attr))
+        # class-level constants
+        for c in self.model.mro(self.pe_cls):
+            for st in c.node.body:
+                if isinstance(st, ast.Assign) and len(st.targets) == 1 and isinstance(st.targets[0], ast.Name) and st.targets[0].id == attr:
+                    return pe.expr(st.value, {}, next(iter(c.methods.values())) if c.methods else None, 0) if c.methods else NotImplemented
+        raise Raised('AttributeError(%s)' % attr)
+
+    def pe_hasattr(self, attr):
+        return attr in self.attrs or self.model.find_method(self.pe_cls, attr) is not None
+
+    def pe_setattr(self, pe, attr, value, stmt, env, func, depth):
+        self.attrs[attr] = value
+        return True
+
+    def pe_call_method(self, pe, attr, args, kw, depth, node):
+        m = self.model.find_method(self.pe_cls, attr)
+        if m is None:
+            return NotImplemented
+        a = dict(zip(m.pos_params, [self] + list(args)))
+        a.update(kw)
+        kind, val, _ = pe._run(m, a, None, depth + 1)
+        if kind == 'raise':
+            raise Raised(val)
+        return val
+
+    def pe_isinstance(self, names):
+        mine = {c.qualname.split('.')[-1] for c in self.model.mro(self.pe_cls)}
+        return any(n.split('.')[-1] in mine for n in names)
+
+    def __repr__(self):
+        return self.text
+
+
+class Closure(Opaque):
+    """a nested def taken as a value: the function, the environment of its definition (read at call time, as Python does) and the function it was defined in"""
+    def __init__(self, name, f, env, owner):
+        Opaque.__init__(self, '<closure %s>' % name)
+        self.f, self.env, self.owner = f, env, owner
+
+
+class Partial:
+    """functools.partial(callee, *args, **kw) as a value"""
+    def __init__(self, callee_node, args, kw, func, env):
+        self.callee_node, self.args, self.kw, self.func, self.env = callee_node, list(args), dict(kw), func, env
+        self.text = 'partial(%s)' % norm(callee_node)
+
+    def __repr__(self):
+        return self.text
+
+
 class PSet(list):
     """a set value: insertion-ordered list without duplicates (identity for objects, equality for plain values)"""
     def has(self, x):
@@ -257,7 +323,7 @@ class PE:
             raise Raised(norm(s.exc)[:80] if s.exc is not None else 'raise')
         if isinstance(s, (ast.Pass, ast.Global, ast.Nonlocal, ast.Import, ast.ImportFrom, ast.FunctionDef, ast.ClassDef)):
             if isinstance(s, ast.FunctionDef):
-                env[s.name] = Opaque('<closure %s>' % s.name)
+                env[s.name] = Closure(s.name, self.model.funcs.get('%s.%s' % (func.qualname, s.name)), env, func)
             return
         if isinstance(s, ast.Assert):
             return
@@ -906,6 +972,31 @@ class PE:
                 if p_ not in dict(zip(ps, args)) and p_ not in kw:
                     env2[p_] = self.expr(d, fv.env, fv.func, depth)
             return self.expr(fv.node.body, env2, fv.func, depth + 1)
+        if isinstance(fv, Closure) and fv.f is not None and depth < self.max_depth + 2:
+            f = fv.f
+            a = dict(zip(f.pos_params, args))
+            a.update(kw)
+            kind, val, _ = self._run(f, a, None, depth + 1, outer_env=fv.env)
+            if kind == 'raise':
+                raise Raised(val)
+            return val
+        if isinstance(fv, Partial) and depth < self.max_depth + 2:
+            # the call is re-issued on the wrapped callee with the stored and the new arguments (hooks see the real callee)
+            env2 = dict(fv.env)
+            nodes, kws = [], []
+            allargs = list(fv.args) + list(args)
+            for i, v in enumerate(allargs):
+                env2['__pa%d' % i] = v
+                nodes.append(ast.Name(id='__pa%d' % i, ctx=ast.Load()))
+            allkw = dict(fv.kw)
+            allkw.update(kw)
+            for k, v in allkw.items():
+                env2['__pk_%s' % k] = v
+                kws.append(ast.keyword(arg=k, value=ast.Name(id='__pk_%s' % k, ctx=ast.Load())))
+            synth = ast.Call(func=fv.callee_node, args=nodes, keywords=kws)
+            ast.copy_location(synth, fv.callee_node)
+            ast.fix_missing_locations(synth)
+            return self.call(synth, env2, fv.func, depth + 1)
         if isinstance(fv, Bound) and depth < self.max_depth:
             f = fv.f
             a = dict(zip(f.pos_params, [fv.recv] + list(args)))
@@ -957,8 +1048,10 @@ class PE:
             return ob.pe_call(self, args, kw, depth, e)
         # a function VALUE is called: a lambda (possibly picked from a table), or a method taken as a value
         fv = None
-        if isinstance(e.func, ast.Name) and isinstance(env.get(e.func.id), (Lam, Bound)):
+        if isinstance(e.func, ast.Name) and isinstance(env.get(e.func.id), (Lam, Bound, Partial)):
             fv = env[e.func.id]
+        elif isinstance(e.func, ast.Name) and isinstance(env.get(e.func.id), Closure) and env[e.func.id].f is not None:
+            fv = env[e.func.id]         # a nested def called as a value: runs in the environment of its definition
         elif isinstance(e.func, (ast.Subscript, ast.Call, ast.Lambda, ast.IfExp)):
             try:
                 fv = self.expr(e.func, env, func, depth)
@@ -966,13 +1059,13 @@ class PE:
                 fv = None
         if isinstance(fv, Bound):
             ctext = fv.text
-        if not isinstance(fv, Lam):
+        if not isinstance(fv, (Lam, Closure, Partial)):
             self.calls.append((ctext or norm(e.func), args, kw, e))
-        if self.call_hook is not None and not isinstance(fv, Lam):
+        if self.call_hook is not None and not isinstance(fv, (Lam, Closure, Partial)):
             r = self.call_hook(self, name if not isinstance(fv, Bound) else fv.f.qualname, e, args, kw, env, func, depth)
             if r is not NotImplemented:
                 return r
-        if isinstance(fv, (Lam, Bound)):
+        if isinstance(fv, (Lam, Bound, Closure, Partial)):
             r = self.apply_value(fv, args, kw, depth)
             if r is not NotImplemented:
                 return r
@@ -1067,6 +1160,42 @@ class PE:
                 if isinstance(recv, dict) and args and isinstance(args[0], (str, int)):
                     return recv.get(args[0], args[1] if len(args) > 1 else None)
             if m == 'format':
+                tmpl = self.expr(recv_node, env, func, depth) if isinstance(recv_node, (ast.Constant, ast.Name)) else None
+                if isinstance(tmpl, str):
+                    import string
+                    parts, auto, okf = [], 0, True
+                    for lit, field, spec, conv in string.Formatter().parse(tmpl):
+                        if lit:
+                            parts.append(lit)
+                        if field is None:
+                            continue
+                        if spec or conv:
+                            okf = False
+                            break
+                        if field == '':
+                            if auto >= len(args):
+                                okf = False
+                                break
+                            parts.append(args[auto])
+                            auto += 1
+                        elif field.isdigit() and int(field) < len(args):
+                            parts.append(args[int(field)])
+                        elif field in kw:
+                            parts.append(kw[field])
+                        else:
+                            okf = False
+                            break
+                    if okf:
+                        merged = []
+                        for x in parts:
+                            x = str(x) if isinstance(x, (int,)) and not isinstance(x, bool) else x
+                            if isinstance(x, str) and merged and isinstance(merged[-1], str):
+                                merged[-1] += x
+                            else:
+                                merged.append(x)
+                        if all(isinstance(x, str) for x in merged):
+                            return ''.join(merged)
+                        return FStr(merged)
                 return Opaque('<str>')
             if m in ('items', 'keys', 'values'):
                 recv = self.expr(recv_node, env, func, depth)
@@ -1131,6 +1260,8 @@ class PE:
             return list(enumerate(args[0]))
         if n in ('zip',) and args and all(isinstance(a, (list, tuple)) for a in args):
             return list(zip(*args))
+        if n in ('functools.partial', 'partial') and e.args and not isinstance(e.args[0], ast.Starred):
+            return Partial(e.args[0], args[1:], kw, func, env)
         if n in ('set', 'builtins.set', 'frozenset') and len(args) <= 1 and not kw and (not args or isinstance(args[0], (list, tuple))):
             ps = PSet()
             for x in (args[0] if args else ()):
@@ -1220,6 +1351,18 @@ class PE:
                 return Vec([v] * args[1])
         if n in ('abs', 'builtins.abs', 'max', 'min', 'builtins.max', 'builtins.min') and args and all(is_num(a) for a in args):
             return {'abs': abs, 'max': max, 'min': min}[n.split('.')[-1]](*args)
+        # a private helper class of the package: a real instance whose methods are evaluated
+        if n and n in self.model.classes and n.rsplit('.', 1)[-1].startswith('_') and depth < self.max_depth:
+            cls_ = self.model.classes[n]
+            ob = Inst(self.model, cls_)
+            ini = self.model.find_method(cls_, '__init__')
+            if ini is not None:
+                a = dict(zip(ini.pos_params, [ob] + list(args)))
+                a.update(kw)
+                kind, val, _ = self._run(ini, a, None, depth + 1)
+                if kind == 'raise':
+                    raise Raised(val)
+            return ob
         # repository function: inline
         f = self.model.funcs.get(n) if n else None
         if f is None and isinstance(e.func, ast.Name) and isinstance(env.get(e.func.id), Opaque) and env[e.func.id].text == '<closure %s>' % e.func.id:
